@@ -194,6 +194,77 @@ fn canonical(deltas: Vec<TickDelta>) -> Vec<WarpOp> {
     ops
 }
 
+/// Executor of the many-shards policy workload: one op that is unique to its scope (so a lost or
+/// doubled item is visible after the canonical sort+dedup), no reads.
+fn mark_executor(view: GraphView<'_>, scope: &warp_core::NodeId, delta: &mut TickDelta) {
+    delta.push(WarpOp::SetAttachment {
+        key: warp_core::AttachmentKey::node_alpha(warp_core::NodeKey { warp_id: view.warp_id(), local_id: *scope }),
+        value: Some(warp_core::AttachmentValue::Atom(warp_core::AtomPayload::new(
+            warp_core::make_type_id("verif/mark"),
+            bytes::Bytes::copy_from_slice(&scope.0),
+        ))),
+    });
+}
+
+/// Static / dedicated policies on ticks that populate k of the 256 virtual shards, k on both sides
+/// of every power of two up to 256 (one item per shard, plus a second item in every third shard),
+/// for every worker count 1..=32 (quick: 9 worker counts, 6 shard counts); the two dynamic policies run the same ticks under the controller
+/// with the default schedule (bound 0).  Results must equal the serial run.
+fn policies_many_shards(r: &Report) {
+    let u = universe();
+    let scen = &scenarios(0)[0];
+    let state = u.build(&scen.pre);
+    let store = state.store(&u.warp(0)).expect("root store");
+    let view = GraphView::new(store);
+    let all = [
+        ("STATIC_PER_WORKER", ParallelExecutionPolicy::STATIC_PER_WORKER),
+        ("STATIC_PER_SHARD", ParallelExecutionPolicy::STATIC_PER_SHARD),
+        ("DEDICATED_PER_SHARD", ParallelExecutionPolicy::DEDICATED_PER_SHARD),
+        ("DYNAMIC_PER_WORKER", ParallelExecutionPolicy::DYNAMIC_PER_WORKER),
+        ("DYNAMIC_PER_SHARD", ParallelExecutionPolicy::DYNAMIC_PER_SHARD),
+    ];
+    let ks: &[usize] = if r.quick() { &[1, 63, 64, 65, 128, 256] } else { &[1, 2, 3, 4, 5, 7, 8, 9, 15, 16, 17, 31, 32, 33, 63, 64, 65, 66, 100, 127, 128, 129, 200, 255, 256] };
+    for &k in ks {
+        // shard = low byte of the id: shard ids 255, 254, ... (descending, so high shards are populated first)
+        let mut items: Vec<ExecItem> = Vec::new();
+        for j in 0..k {
+            let mut id = [0x5au8; 32];
+            id[0] = (255 - j) as u8;
+            items.push(ExecItem::new(mark_executor, warp_core::NodeId(id), OpOrigin { intent_id: 0, rule_id: 0, match_ix: items.len() as u32, op_ix: 0 }));
+            if j % 3 == 0 {
+                id[1] = 0xa5;
+                items.push(ExecItem::new(mark_executor, warp_core::NodeId(id), OpOrigin { intent_id: 0, rule_id: 0, match_ix: items.len() as u32, op_ix: 0 }));
+            }
+        }
+        let serial = canonical(vec![execute_serial(view, &items)]);
+        if serial.len() != items.len() {
+            r.machinery_error("many-shards workload: serial run does not emit one distinct op per item");
+            return;
+        }
+        for (name, pol) in all {
+            let dynamic = name.starts_with("DYNAMIC");
+            for workers in 1..=32usize {
+                if dynamic && ![1usize, 2, 3, 8, 32].contains(&workers) {
+                    continue;
+                }
+                if r.quick() && ![1usize, 2, 3, 4, 7, 8, 16, 31, 32].contains(&workers) {
+                    continue;
+                }
+                let d = execute_parallel_with_policy(view, &items, NonZeroUsize::new(workers).unwrap(), pol);
+                r.eval(1);
+                r.counter("many_shards_policy_runs", 1);
+                if canonical(d) != serial {
+                    r.violation(
+                        &format!("policy-result-differs-from-serial:{name}:many-shards:populated={}", if k > 64 { ">64" } else { "<=64" }),
+                        json!({"case": {"policy": name, "workers": workers, "populated_shards": k, "items": items.len()}}),
+                    );
+                }
+            }
+        }
+        r.nontrivial(format!("many-shards:{k}").as_bytes());
+    }
+}
+
 fn policies(r: &Report) {
     let u = universe();
     let scen = &scenarios(0)[0];
@@ -412,6 +483,7 @@ fn main() {
     r.guard("all_assignments_observed", r.counter_value("assignments_observed") == r.counter_value("assignments_expected"));
 
     policies(&r);
+    policies_many_shards(&r);
 
     if build == "main" && r.thorough() {
         r.run_extra_build("prod", &[]);
